@@ -170,12 +170,12 @@ theorem exit_status {c : Cfg} {s s' : State} {b : Bool} (hs : step c s (.walkRet
 
 /-- keep-going without interrupt: the exit status is non-zero iff some selected node failed, and the
     failed labels printed are exactly the failed completions (`snap`) -/
-theorem keep_going_exit_status {c : Cfg} {s s' : State} (hs : step c s (.walkReturn false) = some s') :
+theorem keep_going_exit_status {c : Cfg} {s s' : State} (hc : s.ctx = false) (hs : step c s (.walkReturn false) = some s') :
     (exitNonZero c s' = true ↔ ∃ n, n ∈ c.sel ∧ s.phase n = .failed) ∧ s'.snap = s.phase := by
   obtain ⟨_, hh⟩ := step_walkReturn.mp hs
   rcases hh with ⟨hb, _⟩ | ⟨_, _, rfl⟩
   · simp at hb
-  · simp [exitNonZero]
+  · simp [exitNonZero, hc]
 
 /-- fail-fast: whenever `Walk` returns after fail-fast was triggered, the exit status is non-zero -/
 theorem fail_fast_exit_nonzero {c : Cfg} {s s' : State} {b : Bool} (ok : CfgOK c) (h : Reach c s)
